@@ -70,9 +70,9 @@ def optimal(item):
     else:
         mode = 'all valid syndromes'
     decodes = []
-    for s in allsyn:
+    for j_, s in enumerate(allsyn):
         s = s.astype(np.uint8)
-        c = np.asarray(dec.decode(s.copy())).ravel()
+        c = np.asarray(dec.decode(s.astype([np.uint8, bool, np.int64][j_ % 3]))).ravel()
         sx = [int(k) for k, j in enumerate(xi) if s[j]]        # X-type checks fired
         sz = [int(k) for k, j in enumerate(zi) if s[j]]
         decodes.append({'sx': sx, 'sz': sz,
@@ -149,8 +149,10 @@ def correctable(item):
         errs = [e for j, e in enumerate(errs) if j in keep]
         complete = False
     obs = []
-    for e in errs:
-        s = np.asarray(code.measure_syndrome(e)).ravel().astype(np.uint8)
+    # the caller's syndrome comes in the array types callers really use
+    dts = [np.uint8, bool, np.int64, np.uint8, np.uint64]
+    for j_, e in enumerate(errs):
+        s = np.asarray(code.measure_syndrome(e)).ravel().astype(dts[j_ % len(dts)])
         raised = ''
         c = np.zeros(2 * n, dtype=np.uint8)
         try:
